@@ -33,7 +33,7 @@ def prep(ck, prop_file, bins, hooks_bins=()):
 
 def c14(ck):
     rng = random.Random(ck.seed)
-    quick = ck.tier == "quick"
+    quick = ck.quick
     model_ok, ok = prep(ck, "C14.v", (), ("h_pool",))
     ck.rule = ("model: complete breadth-first enumeration of the extracted pool LTS (as configured by the regenerated constants) for initial 1..3, max 1..4, up to %d connections, "
                "checking bound and non-stranding in every state; implementation: bursts of long-lived jobs on the real pool with workers held at the dequeued/start probes or free, "
@@ -127,7 +127,7 @@ def c14(ck):
 
 def c15(ck):
     rng = random.Random(ck.seed)
-    quick = ck.tier == "quick"
+    quick = ck.quick
     model_ok, ok = prep(ck, "C15.v", ("h_service",), ())
     if not ok:
         return
@@ -226,7 +226,7 @@ def c15(ck):
 
 def c13(ck):
     rng = random.Random(ck.seed)
-    quick = ck.tier == "quick"
+    quick = ck.quick
     model_ok, ok = prep(ck, "C13.v", ("h_service",), ())
     if not ok:
         return
